@@ -6,7 +6,9 @@ import (
 	"fmt"
 	"go/types"
 	"os"
+	"os/exec"
 	"path/filepath"
+	"runtime"
 	"strings"
 
 	"golang.org/x/tools/go/packages"
@@ -69,6 +71,14 @@ func harnessOverlay(importPath string, files []string) (map[string][]byte, strin
 				if qual != "" {
 					imports = "import \"" + repoModule + "/ast\"\n\n"
 				}
+			case "goastkinds":
+				// the same helpers for GOROOT's go/ast (vxGoKind, vxGoChildren, vxGoLabel)
+				goroot := runtime.GOROOT()
+				if out, e := exec.Command("go", "env", "GOROOT").Output(); e == nil {
+					goroot = strings.TrimSpace(string(out))
+				}
+				body, err = genASTHelpersEx(filepath.Join(goroot, "src", "go", "ast"), "goast", "vxGo", true)
+				imports = "import goast \"go/ast\"\n\n"
 			case "corpus":
 				maxFiles, maxBytes := 40, 4000
 				if len(parts) > 3 {
